@@ -179,6 +179,26 @@ func main() {
 		os.Exit(cmdRun(os.Args[2:]))
 	case "replay":
 		os.Exit(cmdReplay(os.Args[2:]))
+	case "list":
+		// list <prop>: the harness runs of the thorough tier in execution order (Q = also in the quick tier)
+		spec := props[os.Args[2]]
+		seen := map[string]bool{}
+		q := map[string]bool{}
+		for _, r := range spec.Quick {
+			q[fmt.Sprint(r.Name, r.Params, r.Fuel, r.Race)] = true
+		}
+		for _, r := range append(append([]HarnessRun{}, spec.Quick...), spec.Thorough...) {
+			key := fmt.Sprint(r.Name, r.Params, r.Fuel, r.Race)
+			if seen[key] {
+				continue
+			}
+			seen[key] = true
+			tag := "T"
+			if q[key] {
+				tag = "Q"
+			}
+			fmt.Printf("%s\t%s\t%v\n", tag, r.Name, r.Params)
+		}
 	default:
 		fmt.Fprintln(os.Stderr, "unknown command")
 		os.Exit(2)
